@@ -379,7 +379,7 @@ class TlsCipherSuiteVector(VectorEnumCodeNumeric):
         return VectorParamEnumCodeNumeric(
             item_class=TlsCipherSuiteFactory,
             fallback_class=TlsInvalidTypeTwoByte,
-            min_byte_num=2, max_byte_num=2 ** 16 - 2
+            min_byte_num=0, max_byte_num=2 ** 16 - 2
         )
 
 
